@@ -231,7 +231,14 @@ def run(ctx, model_ok):
     for _ in range(ctx.n(700, 30000)):
         a, b = gen_date(rng, this_year), gen_date(rng, this_year)
         ta, tb = spell(rng, "en", *a, this_year), spell(rng, "en", *b, this_year)
-        cases.append({"lang": "en", "text": f"{ta} to {tb}\n{tb} to {ta}", "kind": "to", "a": a, "b": b})
+        k_ = rng.random()
+        if k_ < 0.7:
+            cases.append({"lang": "en", "text": f"{ta} to {tb}\n{tb} to {ta}", "kind": "to", "a": a, "b": b})
+        else:
+            # one of the two dates carries a zone label (converted to a zone, directly or through a variable): a date is a
+            # calendar date, the difference stays the same number of days
+            z = rng.choice(["CET", "JST", "IST", "EST", "PST", "GMT+3", "GMT-5", "NZDT", "HAST"])
+            cases.append({"lang": "en", "text": f"start = {ta} to {z}\nstart to {tb}\n{tb} to start", "kind": "to-var", "a": a, "b": b})
     # 4. constants -------------------------------------------------------------------------------
     for lang, words in (("en", ["today", "tomorrow", "yesterday"]), ("tr", ["bugün", "yarın", "dün"]), ("tr", ["bugun", "yarin", "dun"])):
         cases.append({"lang": lang, "text": "\n".join(words) + f"\n{words[1]} - 1 {UNIT_EN['day'][0] if lang == 'en' else 'gün'}", "kind": "const", "words": words})
@@ -282,11 +289,14 @@ def run(ctx, model_ok):
                         cls = "G2:month-subtraction-without-year-borrow"
                     elif sim is None and u == "month" and n >= 12 and not valid(y + (n // 12 if add else -(n // 12)), m, d):
                         cls = "G3:intermediate-date-does-not-exist"
-        elif c["kind"] == "to":
+        elif c["kind"] in ("to", "to-var"):
             a, b = datetime.date(*c["a"]), datetime.date(*c["b"])
             want = abs((a - b).days) * DAY
             ctx.seen(c["text"], a != b)
-            v2 = val(ls[1]) if len(ls) > 1 else None
+            if c["kind"] == "to-var":
+                v, v2 = (val(ls[1]) if len(ls) > 1 else None), (val(ls[2]) if len(ls) > 2 else None)
+            else:
+                v2 = val(ls[1]) if len(ls) > 1 else None
             for vv, what in ((v, "A to B"), (v2, "B to A")):
                 if vv is None or vv.get("t") != "Du" or vv["secs"] != want:
                     bad = f"{what}: {abs((a - b).days)} days expected, evaluated to {vv}"
